@@ -413,6 +413,10 @@ fn rand_tol(rng: &mut StdRng, emin: i64, emax: i64) -> Value {
     json!({"m": m, "e": e})
 }
 
+/// right-hand-side scale 10^e: mostly 1e-8..1e8, one case in six at an extreme scale ("right-hand sides of any scale";
+/// the stopping tests are relative, so a solver must behave identically at 1e-30 and at 1e30)
+fn rhs_exp(rng: &mut StdRng) -> i64 { if rng.gen_range(0..6) == 0 { [-30i64, -24, -18, -16, -12, 12, 16, 20, 30][rng.gen_range(0..9)] } else { rng.gen_range(-8..=8) } }
+
 fn gen_c08(quick: bool, rng: &mut StdRng, push: &mut dyn FnMut(Value)) {
     let fams = ["spd", "dd", "indef", "nonsym", "ill", "sing", "spd3", "spdi", "ddi"];
     let ncases = if quick { 4500 } else { 45000 };
@@ -426,7 +430,7 @@ fn gen_c08(quick: bool, rng: &mut StdRng, push: &mut dyn FnMut(Value)) {
         let rhs = match rng.gen_range(0..8) { 0 => "zero", 1 | 2 | 3 => "rand", _ => "ax" };
         let guess = ["zero", "random", "exact"][rng.gen_range(0..3)];
         push(json!({"mode": "c08", "fam": fam, "n": n, "seed": rng.gen_range(0..1i64 << 30), "kind": kind, "itol": itol, "budget": budget,
-                    "tol": rand_tol(rng, 2, 12), "rhs": rhs, "rhs_e": rng.gen_range(-8..=8), "guess": guess}));
+                    "tol": rand_tol(rng, 2, 12), "rhs": rhs, "rhs_e": rhs_exp(rng), "guess": guess}));
     }
 }
 
@@ -445,7 +449,7 @@ fn gen_c09(quick: bool, rng: &mut StdRng, push: &mut dyn FnMut(Value)) {
         // exact Lanczos breakdown (probability zero on real-valued data), which is not what the convergence clause is about
         let guess = if int { "exact" } else { ["zero", "random"][rng.gen_range(0..2)] };
         push(json!({"mode": "c09", "fam": fam, "n": n, "seed": rng.gen_range(0..1i64 << 30), "kind": kind, "itol": itol, "budget": 2000,
-                    "tol": rand_tol(rng, 3, 12), "rhs": rhs, "rhs_e": rng.gen_range(-8..=8), "guess": guess}));
+                    "tol": rand_tol(rng, 3, 12), "rhs": rhs, "rhs_e": rhs_exp(rng), "guess": guess}));
     }
 }
 
